@@ -51,6 +51,25 @@ def run(ctx):
         ctx.evaluations += 1
         if found:
             ctx.ok('AGREE-C29a', found[0], '%s unlock returns Ok only past plaintext size == header.original_size' % label, line=found[1].line)
+            # ... and the comparison comes before the output file is published (write_atomic commits when its closure returns Ok)
+            wa = [c for c in fn.calls() if c.name == 'write_atomic']
+            fb, fc = found
+            if not wa:
+                ctx.lost('AGREE-C29a', '%s unlock: write_atomic call not found' % label)
+            elif fb is fn:
+                eq_t = [t for t, rel in fc.edges() if rel == '==' and t is not None]
+                if all(any(lib.edge_dominates(fn, fc.bb, t, w.bb) for t in eq_t) for w in wa):
+                    ctx.ok('AGREE-C29a', fn, '%s unlock compares the size before write_atomic publishes the plaintext' % label, line=wa[0].line)
+                else:
+                    ctx.bad('AGREE-C29a', fn, 'the %s unlock compares the plaintext size with header.original_size only after write_atomic has committed the output file: unlock returns an '
+                            'error, but a truncated plaintext is already on disk (and has replaced a good file at the default output path)' % label, line=wa[0].line,
+                            sink='write_atomic', detail='size-check-after-publication:' + label)
+            else:
+                pub = any(fb.path in lib.slice_back(fn, w.args, through_calls=False, at=(w.bb, None)).closures for w in wa)
+                if pub:
+                    ctx.ok('AGREE-C29a', fn, '%s unlock compares the size inside the closure whose Ok lets write_atomic commit' % label, line=wa[0].line)
+                else:
+                    ctx.bad('AGREE-C29a', fn, 'the %s unlock compares the plaintext size in a closure that is not the one write_atomic commits on' % label, line=wa[0].line, detail='size-check-not-in-publisher:' + label)
         else:
             ctx.bad('AGREE-C29a', fn, 'the %s unlock path never compares the plaintext size with header.original_size (its sibling does): a capsule truncated at a chunk boundary unlocks successfully'
                     % label, sink='Mv2eHeader.original_size', detail='size-check-missing:' + label)
